@@ -2909,6 +2909,34 @@ def rule_resplit1(ctx, rel):
                "no function returns a re.split token list (not judged)")
 
 
+def _rep_kind(f, name):
+    """'rep' when `name` is a representation in f (self, a parameter, a local
+    built by a constructor / a representation-returning method), 'table'
+    when it is bound to `<x>.generators`, else None."""
+    if name == "self" or name in f.params:
+        return "rep"
+    binds = [s.value for s in ast.walk(f.node) if isinstance(s, ast.Assign)
+             and any(isinstance(t, ast.Name) and t.id == name
+                     for t in s.targets)]
+    if not binds:
+        return None
+    kinds = set()
+    for v in binds:
+        if isinstance(v, ast.Attribute) and v.attr in ("generators",
+                                                       "_generators"):
+            kinds.add("table")
+        elif isinstance(v, ast.Call) and (
+                dotted(v.func).split(".")[-1] in (
+                    "Representation", "tensor_product", "symmetric_square",
+                    "compose", "_compose", "conjugate", "dual", "astype",
+                    "subgroup", "copy", "deepcopy")
+                or dotted(v.func).endswith("__class__")):
+            kinds.add("rep")
+        else:
+            kinds.add(None)
+    return kinds.pop() if len(kinds) == 1 else None
+
+
 def rule_genacc1(ctx, rel):
     r = ctx.r
     r.rule("GENACC1", "inside a loop over generator NAMES (`for g in "
@@ -2955,6 +2983,15 @@ def rule_genacc1(ctx, rel):
                     continue
                 if not isinstance(base, ast.Name):
                     continue
+                kind = _rep_kind(f, base.id)
+                if kind == "table":
+                    r.ok("GENACC1", f"{f.qualname}:{dotted(sub)}",
+                         loc(f, sub), dotted(sub),
+                         f"`{base.id}` is a generator table "
+                         "(<rep>.generators)")
+                    continue
+                if kind != "rep":
+                    continue             # not known to be a representation
                 r.violation(
                     "GENACC1", f"{f.fq}|{dotted(base)}[.]", loc(f, sub),
                     dotted(sub),
